@@ -173,6 +173,9 @@ structure FillInv (mat : Vector ℝ cap) (r m : Nat) (st : Vector ℝ capT × Ve
   lt : ∀ c, c < nc → ∀ k, k < trDone p r m c → nget st.2.1 (trStart p c + k) < nr
   mono : ∀ c, c < nc → ∀ k k', k < k' → k' < trDone p r m c →
     nget st.2.1 (trStart p c + k) ≤ nget st.2.1 (trStart p c + k')
+  /-- the `k`-th entry of result row `c` is the input row in which the `k`-th occurrence of column `c` lies -/
+  pos : ∀ c, c < nc → ∀ k, k < trDone p r m c →
+    cntUpto p (nget st.2.1 (trStart p c + k)) c ≤ k ∧ k < cntUpto p (nget st.2.1 (trStart p c + k) + 1) c
 
 theorem trFillEntry_step (mat : Vector ℝ cap) (hcapT : trStart p nc ≤ capT) (r : Nat) (hr : r < nr) (m : Nat)
     (hm : m < nget p.rownnz r) (st : Vector ℝ capT × Vector Nat capT × Vector Nat nc) (I : FillInv p mat r m st) :
@@ -217,7 +220,7 @@ theorem trFillEntry_step (mat : Vector ℝ cap) (hcapT : trStart p nc ≤ capT) 
     have e2 : adr[c0] = nget adr c0 := getElem_eq_nget _ _ _
     simp only [e2, wr_some _ _ _ hadlt, Option.bind_some, getElem_eq_vget, Option.pure_def]
   rw [hres]
-  refine ⟨_, rfl, ?_, ?_, ?_, ?_, ?_⟩
+  refine ⟨_, rfl, ?_, ?_, ?_, ?_, ?_, ?_⟩
   · intro c hc
     show nget (adr.set c0 (nget adr c0 + 1) hc0) c = _
     rw [nget_set]
@@ -285,12 +288,36 @@ theorem trFillEntry_step (mat : Vector ℝ cap) (hcapT : trStart p nc ≤ capT) 
     · rw [hdoneNe c ec] at hk'
       rw [nget_set, nget_set, if_neg (hdisj c hc k (by omega)), if_neg (hdisj c hc k' hk')]
       exact I.mono c hc k k' hkk hk'
+  · intro c hc k hk
+    show cntUpto p (nget (rcol.set (nget adr c0) r hadlt) (trStart p c + k)) c ≤ k ∧
+      k < cntUpto p (nget (rcol.set (nget adr c0) r hadlt) (trStart p c + k) + 1) c
+    rw [nget_set]
+    by_cases e : trStart p c + k = nget adr c0
+    · rw [if_pos e]
+      have ec : c = c0 := by
+        by_contra ec
+        rw [hdoneNe c ec] at hk
+        exact hdisj c hc k hk e
+      subst ec
+      have hk0 : k = trDone p r m c := by omega
+      have h1 := cntRow_mono p r c (show m + 1 ≤ nget p.rownnz r by omega)
+      have h2 := cntUpto_succ p r c
+      have h3 : cntRow p r c (m + 1) = cntRow p r c m + 1 := by rw [cntRow_succ, if_pos hc0def.symm]
+      unfold trDone at hk0
+      omega
+    · rw [if_neg e]
+      by_cases ec : c = c0
+      · subst ec
+        rw [hdone1] at hk
+        exact I.pos c hc k (by omega)
+      · rw [hdoneNe c ec] at hk
+        exact I.pos c hc k hk
 
 theorem FillInv.next (mat : Vector ℝ cap) (r : Nat) (st : Vector ℝ capT × Vector Nat capT × Vector Nat nc)
     (I : FillInv p mat r (nget p.rownnz r) st) : FillInv p mat (r + 1) 0 st := by
   have hd : ∀ c, trDone p (r + 1) 0 c = trDone p r (nget p.rownnz r) c := by
     intro c; unfold trDone; rw [cntUpto_succ]; simp [cntRow]
-  refine ⟨?_, ?_, ?_, ?_, ?_⟩
+  refine ⟨?_, ?_, ?_, ?_, ?_, ?_⟩
   · intro c hc; rw [hd]; exact I.adr c hc
   · intro c hc r'
     rw [hd, I.part c hc r', rowPart_full]
@@ -300,6 +327,7 @@ theorem FillInv.next (mat : Vector ℝ cap) (r : Nat) (st : Vector ℝ capT × V
   · intro c hc k hk; rw [hd] at hk; have := I.le c hc k hk; omega
   · intro c hc k hk; rw [hd] at hk; exact I.lt c hc k hk
   · intro c hc k k' hkk hk'; rw [hd] at hk'; exact I.mono c hc k k' hkk hk'
+  · intro c hc k hk; rw [hd] at hk; exact I.pos c hc k hk
 
 /-- phase 3 places every entry -/
 theorem trFill_spec (mat : Vector ℝ cap) (hoff : nget p.rowadr 0 = 0) (hcapT : trStart p nc ≤ capT)
@@ -308,12 +336,13 @@ theorem trFill_spec (mat : Vector ℝ cap) (hoff : nget p.rowadr 0 = 0) (hcapT :
     ∃ st, trFill mat p.rownnz p.rowadr p.colind 0 (res0, rcol0, adr) = some st ∧ FillInv p mat nr 0 st := by
   unfold trFill
   refine loopM_inv nr _ _ (fun r st => FillInv p mat r 0 st) ?_ ?_
-  · refine ⟨?_, ?_, ?_, ?_, ?_⟩
+  · refine ⟨?_, ?_, ?_, ?_, ?_, ?_⟩
     · intro c hc; rw [hadr c hc]; simp [trDone, cntUpto, cntRow]
     · intro c hc r'; simp [trDone, cntUpto, cntRow, rawPart, rowPart]
     · intro c hc k hk; simp [trDone, cntUpto, cntRow] at hk
     · intro c hc k hk; simp [trDone, cntUpto, cntRow] at hk
     · intro c hc k k' _ hk; simp [trDone, cntUpto, cntRow] at hk
+    · intro c hc k hk; simp [trDone, cntUpto, cntRow] at hk
   · intro r hr st I
     simp only [rd_some _ _ hr, Option.bind_eq_bind, Option.bind_some, Nat.sub_zero]
     obtain ⟨st', h1, h2⟩ := loopM_inv p.rownnz[r] (fun t st => trFillEntry mat p.colind r (p.rowadr[r] + t) st) st
@@ -335,7 +364,9 @@ theorem transposeSparse_spec (mat : Vector ℝ cap) (hnr : 0 < nr) (hnc : 0 < nc
         (∀ r', denseRaw out'.rownnz out'.rowadr out'.colind out'.res c r' = if r' < nr then denseOf p mat r' c else 0) ∧
         (∀ k, k < cntUpto p nr c → nget out'.colind (trStart p c + k) < nr) ∧
         (∀ k k', k < k' → k' < cntUpto p nr c →
-          nget out'.colind (trStart p c + k) ≤ nget out'.colind (trStart p c + k')) := by
+          nget out'.colind (trStart p c + k) ≤ nget out'.colind (trStart p c + k')) ∧
+        (∀ k, k < cntUpto p nr c → cntUpto p (nget out'.colind (trStart p c + k)) c ≤ k ∧
+          k < cntUpto p (nget out'.colind (trStart p c + k) + 1) c) := by
   have hcap' : trStart p nc ≤ capT := by rw [trStart_total]; exact hcapT
   obtain ⟨cnt, hc1, hc2⟩ := trCount_spec p
   obtain ⟨adr, ha1, ha2⟩ := trStarts_spec p hnc cnt (out.rowadr.set 0 0 hnc) hc2 (by rw [nget_set, if_pos rfl])
@@ -349,7 +380,7 @@ theorem transposeSparse_spec (mat : Vector ℝ cap) (hnr : 0 < nr) (hnc : 0 < nc
     rw [dif_neg (by omega)]
     simp only [hoff', hc1, ha1, hf1, hs1, Option.bind_eq_bind, Option.bind_some, Option.pure_def]
   · intro c hc
-    refine ⟨hc2 c hc, hs2 c hc, ?_, ?_, ?_⟩
+    refine ⟨hc2 c hc, hs2 c hc, ?_, ?_, ?_, ?_⟩
     · intro r'
       show denseRaw cnt adr' st.2.1 st.1 c r' = _
       rw [denseRaw_eq_rawPart, hs2 c hc, hc2 c hc, ← hd, F.part c hc r']
@@ -358,6 +389,7 @@ theorem transposeSparse_spec (mat : Vector ℝ cap) (hnr : 0 < nr) (hnc : 0 < nc
       split_ifs <;> first | ring1 | (exfalso; omega) | (subst_vars; ring1)
     · intro k hk; exact F.lt c hc k (by rw [hd]; exact hk)
     · intro k k' hkk hk'; exact F.mono c hc k k' hkk (by rw [hd]; exact hk')
+    · intro k hk; exact F.pos c hc k (by rw [hd]; exact hk)
 
 end
 end MjProof.Sparse
